@@ -17,9 +17,45 @@ open Tars Consts
 def ArgFieldOK (env : Env) (rk : String → Nat) (f : Field) : Prop :=
   f.tag < 256 ∧ f.req = true ∧ f.dflt = none ∧ TyOK env rk (env.length + 1) f.ty
 
+/-- what the target of a required member may hold when it is read: what `var` / `ResetDefault`
+    leave (`OldOK`), or any Go value of the member's type (a reused variable) -/
+def ArgOld (env : Env) (f : Field) (o : Val) : Prop := OldOK env f.ty f.dflt o ∨ WT env f.ty o
+
+def ArgOlds (env : Env) : List Field → List Val → Prop
+  | [], [] => True
+  | f :: fs, o :: os => ArgOld env f o ∧ ArgOlds env fs os
+  | _, _ => False
+
+theorem argOlds_append (env : Env) : ∀ (fs1 fs2 : List Field) (o1 o2 : List Val),
+    ArgOlds env fs1 o1 → ArgOlds env fs2 o2 → ArgOlds env (fs1 ++ fs2) (o1 ++ o2)
+  | [], _, [], _, _, h2 => by simpa using h2
+  | [], _, _ :: _, _, h1, _ => by simp [ArgOlds] at h1
+  | _ :: _, _, [], _, h1, _ => by simp [ArgOlds] at h1
+  | f :: fs1, fs2, o :: o1, o2, h1, h2 => by
+    simp only [ArgOlds, List.cons_append] at h1 ⊢
+    exact ⟨h1.1, argOlds_append env fs1 fs2 o1 o2 h1.2 h2⟩
+
+theorem argOlds_of_WTm (env : Env) : ∀ (fs : List Field) (os : List Val), WTm env fs os →
+    ArgOlds env fs os
+  | [], [], _ => trivial
+  | [], _ :: _, h => by simp [WTm] at h
+  | _ :: _, [], h => by simp [WTm] at h
+  | f :: fs, o :: os, h => by
+    simp only [WTm] at h
+    exact ⟨.inr h.1, argOlds_of_WTm env fs os h.2⟩
+
+theorem argOlds_of_oldOKs (env : Env) : ∀ (fs : List Field) (os : List Val), OldOKs env fs os →
+    ArgOlds env fs os
+  | [], [], _ => trivial
+  | [], _ :: _, h => by simp [OldOKs] at h
+  | _ :: _, [], h => by simp [OldOKs] at h
+  | f :: fs, o :: os, h => by
+    simp only [OldOKs] at h
+    exact ⟨.inl h.1, argOlds_of_oldOKs env fs os h.2⟩
+
 theorem decMembers_req_rt (env : Env) (rk : String → Nat) (hE : EnvWF env rk) :
     ∀ (vs : List Val) (fs : List Field) (fuel : Nat) (olds : List Val) (r : Reader) (t : Bytes),
-      (∀ f ∈ fs, ArgFieldOK env rk f) → WTm env fs vs → OldOKs env fs olds →
+      (∀ f ∈ fs, ArgFieldOK env rk f) → WTm env fs vs → ArgOlds env fs olds →
       needElems vs ≤ fuel → r.rest = encMembers env fs vs ++ t →
       decMembers env fuel fs olds r
         = (.ok (normMembers env fs vs), r.adv (encMembers env fs vs).length)
@@ -35,16 +71,22 @@ theorem decMembers_req_rt (env : Env) (rk : String → Nat) (hE : EnvWF env rk) 
     | nil => simp [WTm] at hwt
     | cons g gs =>
       cases olds with
-      | nil => simp [OldOKs] at hold
+      | nil => simp [ArgOlds] at hold
       | cons o os =>
         simp only [WTm] at hwt
-        simp only [OldOKs] at hold
+        simp only [ArgOlds] at hold
         simp only [encMembers, List.append_assoc] at h
         obtain ⟨hg1, hg2, hg3, hg4⟩ := hfs g (by simp)
         rw [decMembers_cons]
-        have hv := rt_all env rk hE v f g.tag g.req g.ty g.dflt o r (encMembers env gs vs ++ t)
-          hg1 hg4 (by rw [hg3]; trivial) hwt.1 hold.1 (fun hq => by rw [hg2] at hq; cases hq)
-          (by omega) h
+        have hv : decVar env f g.tag g.req g.ty o r
+            = (.ok (normVar env g.req g.ty g.dflt v), r.adv (encVar env g.tag g.req g.ty g.dflt v).length) := by
+          rcases hold.1 with ho | ho
+          · exact rt_all env rk hE v f g.tag g.req g.ty g.dflt o r (encMembers env gs vs ++ t)
+              hg1 hg4 (by rw [hg3]; trivial) hwt.1 ho (fun hq => by rw [hg2] at hq; cases hq)
+              (by omega) h
+          · rw [hg2] at h ⊢
+            exact rt_req_wt env rk hE v f g.tag g.ty g.dflt o r (encMembers env gs vs ++ t)
+              hg1 hg4 (by rw [hg3]; trivial) hwt.1 ho (by omega) h
         rw [hv]
         simp only
         have hr := r.rest_adv _ _ h
